@@ -276,7 +276,7 @@ class Arm(Robot):
                 self.rot_tolerance, self.pos_tolerance, max_iters=max_iters)
         theta = fsr.angleMod(theta)
         if success:
-            self._theta = theta
+            self._theta = theta.copy()
             self._end_effector_pos_global = goal_position
         else:
             if check:
@@ -291,7 +291,7 @@ class Arm(Robot):
                             self.rot_tolerance, self.pos_tolerance, max_iters=max_iters)
                     i = i + 1
                 if success:
-                    self._theta = theta
+                    self._theta = theta.copy()
                     self._end_effector_pos_global = goal_position
         return theta, success
 
